@@ -56,5 +56,5 @@ FromBoth == BOOLEAN
 FromRef == {FALSE}
 GOne == {<<1, 1>>}
 DesignsLit == { D(<<"fuel", "plenum">>, <<5, 4>>, 3), NoDet(<<"fuelb", "bigfuel">>, <<5, 5>>, 2) }
-DesignsEmitThorough == DesignsEmit \cup { NoDet(<<"shield", "fuel">>, <<4, 5>>, 3), TopD(<<"shield", "fuel">>, <<4, 5>>, "plenum", 3, FALSE) }
+DesignsEmitThorough == DesignsEmit \cup { TopD(<<"shield", "fuel">>, <<4, 5>>, "plenum", 3, FALSE) }
 =====================================================================================================
